@@ -56,6 +56,8 @@ type world struct {
 	// property's quantifier ("passive-side failures at a replication step"). From here on the passive folder is not
 	// expected to equal the active one; the correspondence with the model and the active-side oracles stay on.
 	wiped bool
+	hm        int  // the registry hash-mod value the database is created with (every transaction of "this process" passes it)
+	hmOmitted bool // a reinstate left the passive folder without reghashmod.txt (C27-F10)
 	dead          bool // the case stopped observing (a racy outcome followed)
 	dirtyWhy      string
 }
@@ -150,7 +152,21 @@ func (w *world) meta() {
 	}
 	f0, f1 := w.metaOf(w.e.Folders[0]), w.metaOf(w.e.Folders[1])
 	w.s.Op("meta", fmt.Sprintf("g=%s l2=%s logs=%d F0: %s F1: %s", g, w.l2Flags(), w.logCount(), f0, f1))
-	if w.synced && w.broke == "" && w.midReinstate == 0 && stripStatus(f0) != stripStatus(f1) {
+	// the two folders as sets of files, by replicated kind (store list, hash-mod file, store infos, registry segment
+	// files, and any file of a kind this harness does not know): same relative paths, whole-file kinds byte-identical
+	fsd := ""
+	if w.broke == "" {
+		fsd = replx.DiffFileSets(w.e.Folders[0], w.e.Folders[1])
+	}
+	if fsd != "" {
+		w.s.Hit("file_sets_differ")
+	} else if w.broke == "" {
+		w.s.Hit("file_sets_equal")
+	}
+	if w.synced && w.broke == "" && w.midReinstate == 0 && (stripStatus(f0) != stripStatus(f1) || fsd != "") {
+		if fsd != "" {
+			f1 += " | files: " + fsd
+		}
 		sig := "C27/passive-differs-fault-free"
 		if w.catFault {
 			sig = "C27/passive-diverged-unrecorded-after-catalogue-fault"
@@ -187,6 +203,9 @@ func (w *world) write(name string, nAdd, nUpd, nDel int) {
 		return
 	}
 	before, wasFailed := w.passiveSnapshot(), w.failedNow()
+	// every transaction builds its tracker and store repository first: NewStoreRepository(…, hash-mod value) persists the
+	// value (active folder, replayed on the passive one) when the active folder has no reghashmod.txt
+	w.s.Op(fmt.Sprintf("open %d", w.e.HashMod), "ok")
 	t, err := w.e.NewTxn(w.ctx, sop.ForWriting, time.Minute, nil)
 	if err != nil {
 		panic(err)
@@ -318,6 +337,7 @@ func (w *world) remove(name string) {
 		return
 	}
 	before, wasFailed := w.passiveSnapshot(), w.failedNow()
+	w.s.Op(fmt.Sprintf("open %d", fs.MinimumModValue), "ok") // RemoveBtree builds its repository with MinimumModValue
 	err := w.e.RemoveBtree(w.ctx, name)
 	out := "ok"
 	if err != nil {
@@ -396,7 +416,7 @@ func (w *world) reinstateDone() {
 	// When the reinstate left the passive registry incomplete (C27-F4), what later replication does to the missing
 	// records depends on hash-slot placement (C21's matter) and on a goroutine race: report and stop observing.
 	regOf := func(m string) string {
-		i, j := strings.Index(m, " reg="), strings.LastIndex(m, " st=")
+		i, j := strings.Index(m, " reg="), strings.LastIndex(m, " hm=")
 		if i < 0 || j < i {
 			return m
 		}
@@ -410,6 +430,19 @@ func (w *world) reinstateDone() {
 		w.dead = true
 	} else {
 		w.s.Hit("reinstate_registry_complete")
+	}
+	hmOf := func(m string) string {
+		i, j := strings.LastIndex(m, " hm="), strings.LastIndex(m, " st=")
+		if i < 0 || j < i {
+			return m
+		}
+		return m[i:j]
+	}
+	if hmOf(f0) != hmOf(f1) {
+		// the copier does not copy reghashmod.txt and NewStoreRepository rewrites it only when the ACTIVE folder lacks it
+		w.hmOmitted = true
+		w.s.Hit("reinstate_omitted_reghashmod")
+		w.s.Fail("C27/reinstate-omits-reghashmod", "after ReinstateFailedDrives onto a replacement drive the passive folder has no reghashmod.txt: CopyToPassiveFolders does not copy it and NewStoreRepository writes it only when the active folder lacks it", hmOf(f0)+" vs"+hmOf(f1))
 	}
 }
 
@@ -529,13 +562,23 @@ func (w *world) colddump() {
 	var ds []storex.StoreDump
 	wantFirst := w.togglerFirst()
 	var gotFirst bool
+	mod := -1
 	err := w.e.AsOtherProcess(func(o *storex.Env) error {
+		// the fresh process does NOT pass the hash-mod value: it relies on the persisted one (what reghashmod.txt is for)
+		o.HashMod = 0
 		rt, err := fs.NewReplicationTracker(w.ctx, o.Folders, true, o.L2)
 		if err != nil {
 			return err
 		}
 		failed, first, _ := fs.VerifTrackerFlags(rt)
 		gotFirst = first
+		sr, err := fs.NewStoreRepository(w.ctx, rt, fs.NewManageStoreFolder(fs.NewFileIO()), o.L2, 0)
+		if err != nil {
+			return err
+		}
+		if mod, err = sr.GetRegistryHashModValue(w.ctx); err != nil {
+			return err
+		}
 		ds, err = o.DumpHere(w.ctx)
 		if err != nil {
 			return err
@@ -556,7 +599,7 @@ func (w *world) colddump() {
 		if failed {
 			f = 1
 		}
-		line = fmt.Sprintf("active=%d failed=%d stores=[%s]", a, f, strings.Join(items, ","))
+		line = fmt.Sprintf("active=%d failed=%d mod=%d stores=[%s]", a, f, mod, strings.Join(items, ","))
 		return nil
 	})
 	if err != nil {
@@ -572,7 +615,33 @@ func (w *world) colddump() {
 		w.s.Fail("C27/failover-forgotten-by-cold-process", "after a failover a freshly started process (no L2 entry) goes back to the previously active folder: failover wrote the status file before flipping ActiveFolderToggler and readStatusFromHomeFolder takes the file's toggler", line)
 		return
 	}
-	// direct oracle: the dump equals what was committed
+	// direct oracle: the fresh process computes the hash modulus the database was created with …
+	eff := mod
+	if eff <= 0 {
+		eff = fs.MinimumModValue
+	}
+	if eff != w.hm {
+		if w.wiped {
+			// the folder the environment emptied unobserved (see world.wiped) has become the one a fresh process reads:
+			// outside the quantifier, nothing to judge from here on
+			w.s.Hit("cold_open_reads_unobserved_wiped_folder")
+			return
+		}
+		sig := "C27/cold-open-wrong-hash-mod"
+		if w.hmOmitted {
+			sig = "C27/reinstate-omits-reghashmod"
+		} else if w.catFault {
+			// the drive was swapped for an empty one after a fault that only catalogue operations met: nothing recorded
+			// it, so ReinstateFailedDrives refused to run and the new drive never got the file (consequence of C27-F9)
+			sig = "C27/passive-diverged-unrecorded-after-catalogue-fault"
+		}
+		w.s.Hit("cold_open_wrong_hash_mod")
+		w.s.Fail(sig, "a freshly started process that does not pass the registry hash-mod value computes a modulus different from the one the database was created with (no reghashmod.txt in the folder it reads): handles are looked up in the wrong blocks",
+			fmt.Sprintf("created with %d, persisted value read %d, modulus in effect %d; %s", w.hm, mod, eff, line))
+		return
+	}
+	w.s.Hit("cold_open_right_hash_mod")
+	// … and its dump equals what was committed (every committed item is found)
 	got := map[string]string{}
 	for _, d := range ds {
 		got[d.Name] = strings.Join(d.Items, ",")
@@ -602,16 +671,29 @@ func (w *world) colddump() {
 	}
 }
 
+// the hash-mod values the cases cycle through: small ones (cheap segment files), the default (250: a lost
+// reghashmod.txt is harmless then) and larger non-default ones (a reader falling back to 250 accepts the segment file
+// and looks in the wrong blocks)
+var hmValues = []int{4, 7, 400, 5, 16, 250, 4, 300, 13, 4}
+var caseSeq int
+
+func nextHashMod() int { caseSeq++; return hmValues[(caseSeq-1)%len(hmValues)] }
+
 func newWorld(ctx context.Context, s *hx.Session, header string) (*world, func()) {
+	return newWorldHM(ctx, s, header, 4)
+}
+
+func newWorldHM(ctx context.Context, s *hx.Session, header string, hm int) (*world, func()) {
 	root, err := os.MkdirTemp(hx.WorkRoot(), "c27-")
 	if err != nil {
 		panic(err)
 	}
 	cache.VerifResetGlobalL1()
 	replx.ResetProcessState()
-	e := storex.NewEnv(root, true, 4)
+	e := storex.NewEnv(root, true, hm)
 	s.BeginCase(header)
-	return &world{ctx: ctx, s: s, e: e, cn: replx.NewCanon(), ref: map[string]map[int]string{}, removedInFail: map[string]bool{}, synced: true},
+	s.Hit(fmt.Sprintf("hashmod:%d", hm))
+	return &world{hm: hm, ctx: ctx, s: s, e: e, cn: replx.NewCanon(), ref: map[string]map[int]string{}, removedInFail: map[string]bool{}, synced: true},
 		func() { os.RemoveAll(root) }
 }
 
@@ -649,7 +731,7 @@ func (w *world) existing() []string {
 
 // fault-free history, then failover, then a cold dump
 func caseFaultFree(ctx context.Context, s *hx.Session, p *hx.Prng) {
-	w, clean := newWorld(ctx, s, "faultfree")
+	w, clean := newWorldHM(ctx, s, "faultfree", nextHashMod())
 	defer clean()
 	s.Hit("case:faultfree")
 	k := 4 + p.Intn(8)
@@ -680,7 +762,7 @@ func caseFaultFree(ctx context.Context, s *hx.Session, p *hx.Prng) {
 
 // a passive fault, activity under it, repair, reinstate, more activity, failover
 func caseFault(ctx context.Context, s *hx.Session, p *hx.Prng, directed int) {
-	w, clean := newWorld(ctx, s, "fault")
+	w, clean := newWorldHM(ctx, s, "fault", nextHashMod())
 	defer clean()
 	s.Hit("case:fault")
 	for i := 0; i < 2+p.Intn(3); i++ {
@@ -792,6 +874,32 @@ func caseUnobservedWipe(ctx context.Context, s *hx.Session) {
 	w.colddump()
 }
 
+// A database created with a non-default hash-mod value, no fault at all: commits, a cold open that does not pass the
+// value, failover, cold open again from the former passive folder, more commits there, restart.
+func caseHashMod(ctx context.Context, s *hx.Session, hm int) {
+	w, clean := newWorldHM(ctx, s, "faultfree", hm)
+	defer clean()
+	s.Hit("case:hashmod_directed")
+	w.write("sa", 6, 0, 0)
+	w.write("sb", 5, 0, 0)
+	w.write("sa", 6, 1, 1)
+	w.meta()
+	s.Nontrivial()
+	w.colddump()
+	w.failover()
+	w.meta()
+	w.colddump()
+	w.write("sa", 4, 1, 0)
+	w.meta()
+	w.cold()
+	w.write("sb", 3, 0, 1)
+	w.meta()
+	w.colddump()
+	w.remove("sb")
+	w.meta()
+	w.colddump()
+}
+
 func run(o hx.RunOpts) error {
 	sop.RetryStartDuration = time.Millisecond
 	s := hx.NewSession(o, "cases: real replicated transactions (active/passive folders + EC 2+1 blob drives) run histories of store creation, commits with item adds/updates/removes "+
@@ -806,6 +914,8 @@ func run(o hx.RunOpts) error {
 	caseFault(ctx, s, hx.NewPrng(12), 2)
 	caseFaultFree(ctx, s, hx.NewPrng(13))
 	caseUnobservedWipe(ctx, s)
+	caseHashMod(ctx, s, 400)
+	caseHashMod(ctx, s, 251)
 	n := o.N(120, 900)
 	for i := 0; i < n; i++ {
 		if i%3 == 0 {
